@@ -303,6 +303,12 @@ class C06(object):
         out = drv.call('divf', [name, [[f2bits(float(p)), f2bits(float(qq))] for p, qq in pairs], f2bits(float(a))])
         return math.inf if out == 'inf' else bits2f(out)
 
+    def model_fdiv(self, drv, name, pairs):
+        """The textbook f-divergence of Core/FDiv.lean (`fdivVals`, the object of Props/C06FDiv) over the union of the
+        supports, for the menu entry `name`."""
+        out = drv.call('fdivf', [name, [[f2bits(float(p)), f2bits(float(qq))] for p, qq in pairs]])
+        return math.inf if out == 'inf' else bits2f(out)
+
     @staticmethod
     def agree(x, y, tol=1e-9):
         if math.isinf(x) or math.isinf(y):
@@ -382,6 +388,11 @@ class C06(object):
                 mo = self.model_div(drv, name, [(p, qq) for p, qq in pq if p > 0 or name == 'tv'])
                 if not self.agree(val, mo):
                     r.mismatch = 'f_divergence with f = %s: impl %r model %r' % (name, val, mo)
+            if drv is not None and name != 'alpha' and not r.mismatch:
+                mo = self.model_fdiv(drv, name, pq)
+                r.features.append('fdiv-model=%s' % name)
+                if not self.agree(val, mo):
+                    r.mismatch = 'f_divergence%s with f = %s: impl %r, fdivVals of the model %r' % (where, name, val, mo)
             # D_f(P||P) = 0
             with np.errstate(all='ignore'):
                 vself = float(D.f_divergence(da, da, f, **kw))
@@ -391,7 +402,7 @@ class C06(object):
         r.detail = dict(r.detail or {}, fdiv={k: list(v) for k, v in out.items()})
         return True
 
-    def fdiv_support_class(self, D, da, db, ta, tb, deferred, r, rvs=None):
+    def fdiv_support_class(self, D, da, db, ta, tb, deferred, r, rvs=None, drv=None):
         """The input class of the known finding (see `fdiv_judge`): the call against the full textbook value
         sum_{p,q>0} q f(p/q) + f(0) Q(p = 0) + lim f(t)/t P(q = 0) (+inf included).  Runs only when nothing else of the
         case failed or disagreed, so that it cannot hide another clause; a failure gets its own site and mark."""
@@ -415,6 +426,12 @@ class C06(object):
                 ref += float(mass_q) * f0
             if mass_p > 0 and slope != 0:
                 ref += float(mass_p) * slope
+            if drv is not None and name != 'alpha':
+                # the textbook value used as the reference here IS the model's `fdivVals`
+                mo = self.model_fdiv(drv, name, pq)
+                if not self.agree(ref, mo):
+                    raise AssertionError('harness: textbook f-divergence %r differs from fdivVals of the model %r (%s)' % (ref, mo, name))
+                r.features.append('fdiv-support-class-model=%s' % name)
             if self.agree(val, ref):
                 r.features.append('fdiv-support-class-correct=%s' % name)
                 continue
@@ -537,7 +554,7 @@ class C06(object):
             if not r.mismatch and not math.isinf(ci) and not math.isinf(mref) and ci < mref - 1e-4 * max(1.0, mref):
                 r.mismatch = 'Chernoff information %r is below -objective(alpha) = %r of the model at a grid point' % (ci, mref)
         # last: the input class of the known f_divergence finding (never when something else of this case is wrong)
-        self.fdiv_support_class(D, da, db, ta, tb, fdeferred, r)
+        self.fdiv_support_class(D, da, db, ta, tb, fdeferred, r, drv=drv)
 
     def emd_explicit(self, emd, da, db, atoms_a, atoms_b, r, descr):
         """earth_movers_distance(da, db, distances) for cost matrices handed over explicitly (rows: the stored outcomes
@@ -878,7 +895,7 @@ class C06(object):
                 r.mismatch = 'restricted KL: impl %r model %r' % (gk, mo)
         # last: the input class of the known f_divergence finding (never when something else of this case is wrong)
         if not crvs:
-            self.fdiv_support_class(D, da, db, marg(ta, both), marg(tb, both), fdeferred, r, rvs=rvs)
+            self.fdiv_support_class(D, da, db, marg(ta, both), marg(tb, both), fdeferred, r, rvs=rvs, drv=drv)
 
     def run_maxcorr(self, case, drv, r):
         dit = import_dit()
